@@ -14,7 +14,7 @@ ID = "C15"
 RULE = ("(a) every threshold specification from the grammar {leaf | flat list (len 0..3/4) | nested list whose elements are "
         "leaves or flat lists (len 0..3)} over leaves {1.0, 2, 'x', None}, for 1..3 target labels (thorough: 1..4), nest on/off, "
         "through set_thresholds / check_thresholds / check_nested_thresholds; (b) every single and double edit from a table of "
-        "24 edits applied to a valid configuration of each of the 8 perception tasks (+ sensing), through "
+        "26 edits applied to a valid configuration of each of the 8 perception tasks (+ sensing), through "
         "PerceptionEvaluationConfig / SensingEvaluationConfig; (c) CriticalObjectFilterConfig / PerceptionPassFailConfig with "
         "every list length 0..3 and non-numeric entries. state = (kind, n, nest, shape class of the spec or edit pair, "
         "accepted/rejected, reference verdict); non-trivial = a malformed spec/config or a broadcast")
@@ -114,6 +114,8 @@ EDITS = {
     "add:foo_thresholds": [("set", "foo_thresholds", [0.8])],
     "add:distance_range": [("set", "max_distance", 80.0), ("set", "min_distance", 1.0)],
     "add:max_distance_only": [("set", "max_distance", 80.0)],
+    "add:distance_range_zero_min": [("set", "max_distance", 80.0), ("set", "min_distance", 0.0)],
+    "zero:max_y_position": [("set", "max_y_position", 0.0)],
     "bad_len:min_point_numbers": [("set", "min_point_numbers", [0, 0])],
     "bad_len:max_matchable_radii": [("set", "max_matchable_radii", [1.0, 2.0])],
     "bad_len:max_x_position": [("set", "max_x_position", [10.0, 20.0])],
